@@ -90,7 +90,9 @@ func (o *c18Outcome) fail(sig, format string, a ...interface{}) {
 // c18Fault is the error injected into the byte stream of input Input.
 type c18Fault struct{ Input int }
 
-func (f *c18Fault) Error() string { return fmt.Sprintf("c18: injected read error in input %d", f.Input) }
+func (f *c18Fault) Error() string {
+	return fmt.Sprintf("c18: injected read error in input %d", f.Input)
+}
 
 type c18Reader struct {
 	data  []byte
@@ -451,7 +453,32 @@ func c18Eval(cs c18Case) (out c18Outcome) {
 	case final != nil:
 		fin = c18ErrInput(final, soloErr)
 	}
-	out.Impl = strings.Join(seq, ",") + "|" + fin
+	// after the final error: two more calls must return an error again and no record
+	again := "-"
+	if !o.panicked && final != nil {
+		var cls []string
+		o2 := guard(func() {
+			for n := 0; n < 2; n++ {
+				rec, err := m.Read()
+				switch {
+				case rec != nil:
+					cls = append(cls, "rec")
+					out.fail("c18.read.after-final", "Read returned a record after it had returned the error %v", final)
+				case err == nil:
+					cls = append(cls, "nil")
+					out.fail("c18.read.nil-nil", "Read returned nil, nil")
+				default:
+					cls = append(cls, c18ErrInput(err, soloErr))
+				}
+			}
+		})
+		if o2.panicked {
+			out.fail("panic:"+topRepoFrame(o2.stack), "Read after the final error panicked: %s", o2.panicVal)
+			cls = append(cls, "panic")
+		}
+		again = strings.Join(cls, ",")
+	}
+	out.Impl = strings.Join(seq, ",") + "|" + fin + "|" + again
 
 	// ---------------- oracle
 	mode := c18Mode(cs)
@@ -916,7 +943,9 @@ func c18Gen(rnd *Rand, thorough bool) (c18Case, string) {
 // c18Witnesses are the minimal inputs of the defects found on the unrepaired tree (run first, every run).
 func c18Witnesses() []c18Case {
 	rec := func(n string, r, p, m, mp int) c18Rec { return c18Rec{n, r, p, m, mp} }
-	in := func(so string, refs []string, recs ...c18Rec) c18Input { return c18Input{SO: so, Refs: refs, Recs: recs} }
+	in := func(so string, refs []string, recs ...c18Rec) c18Input {
+		return c18Input{SO: so, Refs: refs, Recs: recs}
+	}
 	ab := []string{"a", "b"}
 	za := []string{"z", "a"}
 	failing := in("unsorted", ab, rec("a", 0, 1, -1, -1), rec("b", 0, 2, -1, -1))
@@ -943,6 +972,48 @@ func c18Witnesses() []c18Case {
 	}
 }
 
+// c18Grid is the systematic family: two inputs, every list of 0..2 records over a three-record alphabet
+// (placed on the first / second reference with a mate on the other, unplaced), sorted in the declared order,
+// x four modes x two header pairs ([z a]/[z a] and [z a]/[a c]), without and (fail) with the second input
+// failing right after its last record.
+func c18Grid(fail bool) []c18Case {
+	alpha := []c18Rec{{"b", 0, 1, 1, 0}, {"a", 1, 0, 0, 2}, {"ab", -1, -1, -1, -1}}
+	var lists [][]c18Rec
+	lists = append(lists, nil)
+	for _, a := range alpha {
+		lists = append(lists, []c18Rec{a})
+		for _, b := range alpha {
+			lists = append(lists, []c18Rec{a, b})
+		}
+	}
+	type mode struct{ so, less string }
+	modes := []mode{{"unsorted", "nil"}, {"queryname", "nil"}, {"coordinate", "nil"}, {"unknown", "pos"}}
+	if fail {
+		modes = modes[:2]
+	}
+	headers := [][2][]string{{{"z", "a"}, {"z", "a"}}, {{"z", "a"}, {"a", "c"}}}
+	var out []c18Case
+	for _, md := range modes {
+		for _, hp := range headers {
+			for _, l0 := range lists {
+				for _, l1 := range lists {
+					cs := c18Case{Less: md.less, RD: 1, Inputs: []c18Input{
+						{SO: md.so, Refs: hp[0], Recs: append([]c18Rec(nil), l0...)},
+						{SO: md.so, Refs: hp[1], Recs: append([]c18Rec(nil), l1...)}}}
+					for i := range cs.Inputs {
+						c18SortInput(&cs.Inputs[i], c18Mode(cs))
+					}
+					if fail {
+						cs.Inputs[1].Fail, cs.Inputs[1].FailAt = "inject", len(l1)
+					}
+					out = append(out, cs)
+				}
+			}
+		}
+	}
+	return out
+}
+
 func c18Key(cs c18Case) string { js, _ := json.Marshal(cs); return string(js) }
 
 func checkC18(c *ctx) {
@@ -951,7 +1022,7 @@ func checkC18(c *ctx) {
 		return
 	}
 	r := c.res
-	r.Rule = "cases = witnesses of the recorded defects, then random: k = 0..4 (thorough ..7) BAM inputs written with bam.Writer (0..6 records each, thorough ..40; names over a 7-word pool with prefixes/case, positions 0..3 so ties are frequent, unplaced records, mates on other references), " +
+	r.Rule = "cases = witnesses of the recorded defects; the grid (2 inputs x every list of 0..2 records over {placed on ref 0 with mate on ref 1, placed on ref 1 with mate on ref 0, unplaced} x {unsorted, queryname, coordinate, custom less} x headers [z a]/[z a] and [z a]/[a c], and again with the second input failing after its last record for unsorted and queryname); then random: k = 0..4 (thorough ..7) BAM inputs written with bam.Writer (0..6 records each, thorough ..40; names over a 7-word pool with prefixes/case, positions 0..3 so ties are frequent, unplaced records, mates on other references), " +
 		"sort order unknown(nil or custom less pos/namedesc/matepos)/unsorted/queryname/coordinate (occasionally mismatching), reference lists equal/disjoint/overlapping/shuffled (name order != header order, non-monotone links)/none, occasionally with UR:, inputs sorted in the declared order (11/12 of cases), " +
 		"1/4 of cases with one or two failing inputs (read error after record n, or the byte stream cut at an arbitrary offset with an error or a bare EOF). " +
 		"Non-trivial = merger created, k >= 2 and at least 2 records delivered by the inputs; distinct = distinct case."
@@ -969,9 +1040,9 @@ func checkC18(c *ctx) {
 		r.note("implementation: %s", out.Impl)
 		return
 	}
-	n := 6000
+	n := 4000
 	if c.thorough() {
-		n = 150000
+		n = 60000
 	}
 	if v := os.Getenv("C18_N"); v != "" {
 		fmt.Sscan(v, &n)
@@ -982,8 +1053,19 @@ func checkC18(c *ctx) {
 		cases = append(cases, w)
 		rel = append(rel, "witness")
 	}
+	for _, g := range c18Grid(false) {
+		cases = append(cases, g)
+		rel = append(rel, "grid")
+	}
+	for _, g := range c18Grid(true) {
+		cases = append(cases, g)
+		rel = append(rel, "grid-failing")
+	}
+	// lib.go's newRand(seed) starts the splitmix64 counter at seed*gamma+c, so the streams of neighbouring
+	// seeds are shifts of each other; fork() re-seeds from a mixed output and decorrelates them.
+	rnd := c.rnd.fork()
 	for i := 0; i < n; i++ {
-		cs, relation := c18Gen(c.rnd, c.thorough())
+		cs, relation := c18Gen(rnd, c.thorough())
 		cases = append(cases, cs)
 		rel = append(rel, relation)
 	}
